@@ -166,7 +166,9 @@ class InvokeOperationExecutor(OperationExecutor[R]):
             ExecutionError: If suspend doesn't raise (should never happen)
         """
         msg: str = f"Invoke {self.operation_identifier.operation_id} started, suspending for completion"
-        suspend_with_optional_resume_delay(msg, self.config.timeout_seconds)
+        # timeout 0 means "no timeout": park until the result is delivered. Parking "until now"
+        # would have the resume timer of a map/parallel resubmit the branch at once, over and over.
+        suspend_with_optional_resume_delay(msg, self.config.timeout_seconds or None)
         # This line should never be reached since suspend_with_optional_resume_delay always raises
         error_msg: str = "suspend_with_optional_resume_delay should have raised an exception, but did not."
         raise ExecutionError(error_msg) from None
